@@ -507,6 +507,23 @@ impl<'tcx> Cx<'tcx> {
             // closure: parent
             o.push(("parent", s(tcx.def_path_str(tcx.typeck_root_def_id(did)))));
         }
+        // generic parameter bounds (trait predicates whose self type is a parameter)
+        {
+            let owner = tcx.typeck_root_def_id(did);
+            let preds = tcx.predicates_of(owner).instantiate_identity(tcx);
+            let mut pb: Vec<V> = Vec::new();
+            for (clause, _) in preds.predicates.iter().zip(preds.spans.iter()) {
+                let clause = clause.clone().skip_norm_wip();
+                if let Some(tp) = clause.as_trait_clause() {
+                    let tp = tp.skip_binder();
+                    let st = tp.self_ty();
+                    if let TyKind::Param(_) = st.kind() {
+                        pb.push(V::A(vec![s(format!("{}", st)), s(tcx.def_path_str(tp.def_id()))]));
+                    }
+                }
+            }
+            o.push(("param_bounds", V::A(pb)));
+        }
         // locals
         let mut names: BTreeMap<usize, String> = BTreeMap::new();
         let mut captures: Vec<V> = Vec::new();
@@ -777,6 +794,19 @@ impl Callbacks for Cb {
         let adt_ids: Vec<DefId> = cx.adts.values().cloned().collect();
         let adts: Vec<V> = adt_ids.into_iter().map(|d| cx.adt(d)).collect();
 
+        let mut traits = Vec::new();
+        for ldid in tcx.hir_crate_items(()).definitions() {
+            let did = ldid.to_def_id();
+            if matches!(tcx.def_kind(did), DefKind::Trait) {
+                let mut sup = Vec::new();
+                for (clause, _) in tcx.explicit_super_predicates_of(did).skip_binder().iter() {
+                    if let Some(tp) = clause.as_trait_clause() {
+                        sup.push(s(tcx.def_path_str(tp.skip_binder().def_id())));
+                    }
+                }
+                traits.push(V::O(vec![("path", s(tcx.def_path_str(did))), ("supertraits", V::A(sup))]));
+            }
+        }
         let crate_types: Vec<V> = tcx.crate_types().iter().map(|t| s(format!("{:?}", t))).collect();
         let root = V::O(vec![
             ("crate", s(crate_name.clone())),
@@ -786,6 +816,7 @@ impl Callbacks for Cb {
             ("consts", V::A(consts)),
             ("impls", V::A(impls)),
             ("adts", V::A(adts)),
+            ("traits", V::A(traits)),
         ]);
         let mut out = String::new();
         root.ser(&mut out);
